@@ -78,6 +78,17 @@ def histories(rng, tier):
             c.covpix = [rng.randrange(c.ncov)]
         h = [c.line()]
         pix = fill_groups(rng, c, h, ordout, full_only=(red == 'and'))
+        if c.kind == 'plain' and c.dtype in ('f8', 'i8', 'i4', 'u4', 'u8') and rng.random() < 0.3 \
+                and red in ('std', 'std', 'mean', 'median', 'max', 'min', 'wmean'):
+            # values with a LARGE common offset (their squares are not representable: a one-pass
+            # E[x^2] - E[x]^2 variance cancels catastrophically; seeded change C07d), half of the time all
+            # EQUAL (std exactly 0 for every group size, 3 of 4 valid children included)
+            big = rng.choice([2 ** 27 + 1, 10 ** 9 + 7] + ([] if c.dtype.startswith('u') else [-(2 ** 27 + 1)]))
+            spread = rng.choice([0, 0, 3])
+            for i, ln in enumerate(h):
+                if ln.startswith('upd m op=replace') and ' vals=' in ln:
+                    head, vals = ln.rsplit(' vals=', 1)
+                    h[i] = head + ' vals=' + ','.join(str(big + rng.randint(0, spread)) for _ in vals.split(','))
         if rng.random() < 0.2 and pix and red != 'and':
             h.append("upd m op=replace none=1 pix=%s" % ','.join(map(str, rng.sample(pix, max(1, len(pix) // 4)))))
         wtxt = ''
